@@ -380,6 +380,8 @@ fn run<H: Shape, T: Shape>(len: usize, ctor: u64, rel: u64) -> Vec<u64> {
                 out[3] = size as u64;
                 out[4] = align as u64;
             }
+            // something was written past the end of the block: it was too short for its contents
+            Ev::Overrun { ptr, .. } if ptr == block => out[0] = 5,
             _ => {}
         }
     }
